@@ -72,6 +72,10 @@ CLAIMS = {
    "Decides the structural clauses of the language-value containers: LangRefValue.Equals compares tag and text of both operands and is false when either differs (abstract interpretation with the comparison forced false); the list equality decides through it and does not have the all-pairs loop shape; Get returns a text only under 'entry tag == requested tag'; Set overwrites in place only under that test and appends only on the not-found side; Count is the receiver's length; First returns the front element. NOT decided: operation histories, equality for lists with repeated tags.",
    "Trusted: go/ssa, prov.go.",
    "guard-dominance and loop-shape rules on SSA", "3/C19"),
+ "C12": ("other",
+   "Decides purity by write-effect summaries computed bottom-up over the whole package (stores, map updates, append, copy, calls mapped through actual arguments, interface calls resolved over the package's implementers, callbacks resolved where the actual is a closure): each of ~320 read-only operations (encoders, Equals/Contains, Format/String, getters/predicates, IsNil/NotEmpty/DerefItem, To*/On* helpers, ItemsEqual, ItemOrderTimestamp; found by name family and signature) may write only memory it allocated itself or its designated output parameter, never memory reachable from receiver/arguments and never a package-level variable; the ~75 decode entry points write no package-level variable. Race-freedom of concurrent read-only use follows from absence of writes to shared memory. Seven positive controls (known writers) must be recognised on every run. NOT decided: writes inside dependencies beyond the reviewed summary table, aliasing created through callee stores into locals.",
+   "Trusted: go/ssa, effects.go, the reviewed dependency summaries (extTable/extPurePrefixes); unreviewed externals are listed in the evidence as assumptions.",
+   "interprocedural write-effect (purity) analysis over SSA with root-based aliasing", "3/C12"),
 }
 
 NOT_YET = "check not yet built in this round (planned, see DESIGN.md section 3); not claimed until it runs clean"
